@@ -28,17 +28,17 @@ CHECKS = {
  "C03": dict(
     level="model_checking", design="§5 C03",
     technique="TLA+ model of AnalysisRunner and of the writers (Runner.tla, Output.tla) checked by TLC over all configurations x orders x option sets; TLC-generated schedules replayed on the real runner (hook H4) against an independent production oracle; stdout/SARIF/exit of the real binary validated by TLC (RunnerTrace.tla)",
-    text="TLC proves report conservation for the model of the runner over every configuration of 2 (thorough: 3) definitions, every look-up relation and every analysis order, and the output contract for every option set. Every schedule TLC emits is executed on the real AnalysisRunner in exactly that order and compared, per definition and as multisets, with what an oracle built only from public stage functions says is produced. The real binary is run on every configuration and on the full (level x allow-subset x sarif x verbose) lattice of a set of projects; its stdout, SARIF file and exit status are accepted or rejected by RunnerTrace.tla.",
+    text="TLC proves report conservation for the model of the runner over every configuration of 2 (thorough: 3) definitions, every look-up relation and every analysis order, and the output contract for every option set. Every schedule TLC emits is executed on the real AnalysisRunner in exactly that order and compared, per definition and as multisets, with what an oracle built only from public stage functions says is produced. The real binary is run on every configuration and on the full (level x allow-subset x sarif x verbose) lattice of a set of projects (among them projects in which a named file is also included by another named file, in both command-line orders; which files are user-specified is decided by the command line, not by the library's own flags); its stdout, SARIF file and exit status are accepted or rejected by RunnerTrace.tla.",
     note="Production oracle = public into_cfg/into_ssa/get_analysis_passes with a harness-side context; stdout parser trusted; projects are small (<= 3 definitions in generated configurations plus the base corpus)."),
  "C17": dict(
     level="model_checking", design="§5 C17",
     technique="TLC: order independence of Runner.tla over all configurations and orders; TLC-enumerated project transformations (Transforms.tla) and all analysis orders (hook H4) executed on the real code; repeated fresh processes of the real binary; equality of per-definition finding multisets decided by TLC (TransformTrace.tla)",
-    text="Runner.tla's OrderIndependent invariant is checked for every configuration and analysis order. Every permutation of the base definitions x every split over two named files in both orders x every subset of three unrelated extras (a name sharing a prefix, one failing to lift, one with its own findings) is rendered and run in-process twice; all analysis orders of the base project are replayed through H4; the real binary runs 5 (30) times in fresh processes on 12 (40) projects. TransformTrace.tla accepts a batch iff every base definition has the same multiset of normalised findings in all variants.",
+    text="Runner.tla's OrderIndependent invariant is checked for every configuration and analysis order. Every permutation of the base definitions x every split over two named files in both orders x every subset of three unrelated extras (a name sharing a prefix, one failing to lift, one with its own findings) x one of the two named files including the other x a further named file with 90 unrelated templates that instantiate each other is rendered and run in-process twice; all analysis orders of the base project are replayed through H4; the real binary runs 5 (30) times in fresh processes on 12 (40) projects. TransformTrace.tla accepts a batch iff every base definition has the same multiset of normalised findings in all variants.",
     note="Hash-map iteration orders cannot be enumerated from outside the process: they are sampled (fresh processes / fresh maps), while the order of definition analysis is enumerated via H4. Findings are normalised to (id, severity, message, label texts)."),
  "C19": dict(
     level="model_checking", design="§5 C19",
     technique="TLA+ model of the include FileStack (Includes.tla) checked by TLC (safety + termination) over all include graphs, placements and named sequences; every TLC-generated project materialised with real paths/symlinks/-L options and run in-process and through the real binary, output validated by RunnerTrace.tla",
-    text="Exhaustive over every include relation on 2 files (thorough: 3, sampled replay) plus a missing target, every placement of the files in the source or library directory and every sequence of named files; spellings (plain, ./, sub/../, symlink, library directory or library file, named via ./ or a symlink) are rotated over the edges. For each project the FileLibrary must hold every reachable file exactly once with the right named/included status, one error located at the include statement per unresolvable edge, the analysed definitions must be exactly those of the named files, included definitions must inform inter-procedural findings, and the run must terminate.",
+    text="Homonyms (IncludesNames.tla): every project of <= 4 files over two source directories and the library directory in which one name exists twice, with every set of <= 2 (3) include statements and every sequence of named files -- an include names a NAME, resolved in the directory of the including file and then in the library; all projects go through the in-process pipeline, a sample through the binary. And: exhaustive over every include relation on 2 files (thorough: 3, sampled replay) plus a missing target, every placement of the files in the source or library directory and every sequence of named files; spellings (plain, ./, sub/../, symlink, library directory or library file, named via ./ or a symlink) are rotated over the edges. For each project the FileLibrary must hold every reachable file exactly once with the right named/included status, one error located at the include statement per unresolvable edge, the analysed definitions must be exactly those of the named files, included definitions must inform inter-procedural findings, and the run must terminate.",
     note="Resolution rule of the model: same directory = local, target in the library directory = via -L, otherwise unresolvable; files identified by base name."),
  "C01": dict(
     level="exploration", design="§5 C01",
@@ -93,8 +93,8 @@ CHECKS = {
  "C20": dict(
     level="model_checking", design="§5 C20",
     technique="Hook H2 pass budgets: for every program every cut point of value and degree propagation (0..fixpoint each, and the diagonal) is run on the real code; the union of all claims made at any cut is validated by the same TLA+ executor as C06/C07, and the 13 passes must complete on every truncated CFG",
-    text="For each generated program the harness reads the number of passes to the fixpoint and re-runs SSA conversion with every budget pair on the grid {0..Bv} x unlimited, unlimited x {0..Bd} and the diagonal; every run must complete (all passes run on the truncated result) and every constant / degree claim and every CS0009 / CS0013 finding made at any cut point is checked by Semantics.tla in every execution. Claims are judged one by one, so the cut points of one program are validated together with the budgets of each claim remembered for the report.",
-    note="The wall-clock time box itself is replaced by a pass counter (same place in the loop); smaller scopes than C06/C07 because of the budget grid."),
+    text="For each generated program the harness reads the number of passes to the fixpoint and re-runs SSA conversion with every budget pair on the grid {0..Bv} x unlimited, unlimited x {0..Bd} and the diagonal; every run must complete (all passes run on the truncated result) and every constant / degree claim and every CS0009 / CS0013 finding made at any cut point is checked by Semantics.tla in every execution. Claims are judged one by one, so the cut points of one program are validated together with the budgets of each claim remembered for the report. One definition of 2500 (4000) statements whose propagation is still progressing after 10 s of wall clock exercises the real time box: the run must complete normally. Propagate.tla (extra check X02) describes the pass schedule itself and is validated against the real code pass by pass.",
+    note="For the cut points the wall-clock time box is replaced by a pass counter (same place in the loop); the real time box is exercised by one long definition only; smaller scopes than C06/C07 because of the budget grid."),
  "C04": dict(
     level="model_checking", design="§5 C04",
     technique="TLA+ character model of files (Locations.tla: byte offsets, boundaries, line/column) used by TLC to validate every label recorded from the real code (LocationsTrace.tla); terminal line:col and SARIF regions compared with positions recomputed from the original bytes; label texts compared across meaning-preserving re-renderings",
@@ -103,7 +103,7 @@ CHECKS = {
  "C18": dict(
     level="model_checking", design="§5 C18",
     technique="TLA+ enumeration of sugar uses with Ref's verdict class (Desugar.tla); for each use the sugared definition and its hand-written expansion are run through the real parser / desugarer / pipeline; AST walk for leftover sugar; findings compared",
-    text="Every use -- 10 expression forms (anonymous components with positional / named / reversed / mixed-operator inputs, with parameters, without inputs, parallel; tuple expressions) x 21 positions (assignment sides, declarations with initialisers, conditions, array indices on both sides, assert / log / return arguments, call arguments, template parameters, nested inputs, ternary arms, array literals, dimensions, loop conditions, statement position) and 14 tuple statement forms (with `_`, nested, anonymous outputs, length mismatch, var tuples, reversed operator) x template / function x inside / outside a loop -- must end in one of the outcomes Ref allows: no tuple / anonymous component / multi-substitution left in any definition after parse_files; functions rejected with an error; templates either rejected with an error and dropped or producing exactly the findings of the hand-written expansion; never a panic.",
+    text="Every use -- 10 expression forms (anonymous components with positional / named / reversed / mixed-operator inputs, with parameters, without inputs, parallel; tuple expressions) x 21 positions (assignment sides, declarations with initialisers, conditions, array indices on both sides, assert / log / return arguments, call arguments, template parameters, nested inputs, ternary arms, array literals, dimensions, loop conditions, statement position) and 17 tuple statement forms (among them the value of an anonymous call discarded with `_`) (with `_`, nested, anonymous outputs, length mismatch, var tuples, reversed operator) x template / function x inside / outside a loop -- must end in one of the outcomes Ref allows: no tuple / anonymous component / multi-substitution left in any definition after parse_files; functions rejected with an error; templates either rejected with an error and dropped or producing exactly the findings of the hand-written expansion; never a panic.",
     note="Findings compared as multisets of (id, message and primary label messages with generated component names normalised, label counts). Two known findings (anonymous components in loop bodies)."),
 }
 
